@@ -1,23 +1,12 @@
 // ---- additional trusted model for the call dispatcher (calls unit) ----------------------------------------------
 
-pub uninterp spec fn o_closure(o: ObjectRef) -> ClosureRef;
 pub uninterp spec fn o_native(o: ObjectRef) -> NativeRef;
-pub uninterp spec fn o_fun(o: ObjectRef) -> FunRef;
-pub uninterp spec fn closure_fun(c: ClosureRef) -> FunRef;
-pub uninterp spec fn closure_captures(c: ClosureRef) -> CapturesRef;
 /// does `n` arguments fit the arity the function declares (Fun::check_if_valid_call, verified in the native unit)
 pub uninterp spec fn fun_accepts(f: FunRef, n: u8) -> bool;
 
 impl ObjectRef {
   #[verifier::external_body] pub fn to_closure(&self) -> (r: ClosureRef) requires o_kind(*self) == ObjectKind::Closure ensures r == o_closure(*self) { ClosureRef { p: 0 } }
   #[verifier::external_body] pub fn to_native(&self) -> (r: NativeRef) requires o_kind(*self) == ObjectKind::Native ensures r == o_native(*self) { NativeRef { p: 0 } }
-  #[verifier::external_body] pub fn to_fun(&self) -> (r: FunRef) requires o_kind(*self) == ObjectKind::Fun ensures r == o_fun(*self) { FunRef { p: 0 } }
-}
-/// ObjRef<LyBox>: `ly_box.value` is the boxed value at the time of the read
-pub struct BoxRef { pub value: Value }
-pub uninterp spec fn o_box_value(o: ObjectRef) -> Value;
-impl ObjectRef {
-  #[verifier::external_body] pub fn to_box(&self) -> (r: BoxRef) requires o_kind(*self) == ObjectKind::LyBox ensures r.value == o_box_value(*self) { BoxRef { value: Value { bits: 0 } } }
 }
 /// GcHooks::new(self): a handle used only to allocate
 pub struct GcHooksStub { }
